@@ -3,8 +3,8 @@ CONSTANTS
   Texts <- TextsC
   TokLen <- TokLenC
   ParseOK <- ParseOKC
-  CopyOnReturn = FALSE
-  CopyTokens = TRUE
+  CopyOnReturn = TRUE
+  CopyTokens = FALSE
   ResetCursor = TRUE
   MaxLists = 9
   Modes <- ModesC
